@@ -63,7 +63,7 @@ def run(rep, tier):
                  ("C07.D4", "partial-block position returned by the block primitives is stored and fed back")):
         rep.rule(r, d)
     for b in builds:
-        lr = repo.lower(b, group="lib", level="O0", langs=("c",))
+        lr = repo.lower(b, group="lib", level="O0", langs=("c",), scev=True)
         m = ir.Module.load(lr.json)
         rep.configs.append(b.cfg.name)
         rep.units.update(lr.units)
